@@ -391,19 +391,49 @@ type waiter interface {
 	VerifInFlightPods() ([]string, bool)
 }
 
+// Cluster is one scheduler process image: fake API server contents + a REAL SchedulerCache started on
+// them. RunCycle uses a fresh one per cycle (the scheduler keeps nothing it needs between cycles);
+// RunPath keeps ONE alive across several cycles and environment events, so that whatever the cache
+// does remember between cycles (in-flight status updates, memories of earlier clean-ups) is exercised.
+type Cluster struct {
+	kube    *fake.Clientset
+	kai     *kaifake.Clientset
+	real    cache.Cache
+	wt      waiter
+	stopCh  chan struct{}
+	faults  map[string]bool // API faults of the CURRENT cycle (read by the reactors)
+	w       *world.World    // the world the API contents correspond to
+	apiErrMu sync.Mutex
+	apiErrs  []string
+	rv       int // counter stamped as resourceVersion on objects written by Apply
+}
+
 // RunCycle runs one real scheduling cycle on w (w is not modified).
 func RunCycle(w *world.World, c Config, obs Observer) (res *Result, err error) {
-	currentObserver = obs
+	cl, err := OpenCluster(w, c)
+	if err != nil {
+		return nil, err
+	}
+	defer cl.Close()
+	return cl.Cycle(c, obs)
+}
+
+// Close stops the informers and workers of the cluster's cache.
+func (cl *Cluster) Close() { close(cl.stopCh) }
+
+// OpenCluster materialises w and starts a real cache on it (c supplies the cache-level parameters).
+func OpenCluster(w *world.World, c Config) (*Cluster, error) {
 	maporder.Set(c.MapSeed)
 	initRepo()
 	start := time.Now()
 	kube, kai := Materialise(w)
+	cl := &Cluster{kube: kube, kai: kai, w: w, faults: c.Faults, stopCh: make(chan struct{})}
 
 	// Graceful deletion: the API server marks a pod terminating; it disappears only when the
 	// kubelet confirms (environment event "terminate"). Injected faults fail the call instead.
 	kube.PrependReactor("delete", "pods", func(a k8stesting.Action) (bool, k8sruntime.Object, error) {
 		da := a.(k8stesting.DeleteAction)
-		if c.Faults["evict:"+da.GetName()] {
+		if cl.faults["evict:"+da.GetName()] {
 			return true, nil, fmt.Errorf("injected: delete pod %s failed", da.GetName())
 		}
 		obj, gerr := kube.Tracker().Get(a.GetResource(), da.GetNamespace(), da.GetName())
@@ -430,30 +460,28 @@ func RunCycle(w *world.World, c Config, obs Observer) (res *Result, err error) {
 	kai.PrependReactor("create", "bindrequests", func(a k8stesting.Action) (bool, k8sruntime.Object, error) {
 		ca := a.(k8stesting.CreateAction)
 		br := ca.GetObject().(*schedv1alpha2.BindRequest)
-		if c.Faults["bind:"+br.Spec.PodName] {
+		if cl.faults["bind:"+br.Spec.PodName] {
 			return true, nil, fmt.Errorf("injected: create bindrequest %s failed", br.Name)
 		}
 		return false, nil, nil
 	})
 
-	var apiErrMu sync.Mutex
-	var apiErrs []string
 	logErrors := func(name string, tracker k8stesting.ObjectTracker) k8stesting.ReactionFunc {
 		inner := k8stesting.ObjectReaction(tracker)
 		return func(a k8stesting.Action) (bool, k8sruntime.Object, error) {
 			handled, obj, err := inner(a)
 			if err != nil {
-				apiErrMu.Lock()
-				if len(apiErrs) < 20 {
+				cl.apiErrMu.Lock()
+				if len(cl.apiErrs) < 20 {
 					detail := ""
 					if pa, ok := a.(k8stesting.PatchAction); ok {
 						detail = " patch=" + string(pa.GetPatch())
 					}
-					apiErrs = append(apiErrs, fmt.Sprintf("%s %s %s/%s: %v%s", name, a.GetVerb(), a.GetResource().Resource, a.GetSubresource(), err, detail))
+					cl.apiErrs = append(cl.apiErrs, fmt.Sprintf("%s %s %s/%s: %v%s", name, a.GetVerb(), a.GetResource().Resource, a.GetSubresource(), err, detail))
 				}
-				apiErrMu.Unlock()
+				cl.apiErrMu.Unlock()
 				if os.Getenv("VERIF_DEBUG") != "" {
-					fmt.Fprintln(os.Stderr, "APIERR", apiErrs[len(apiErrs)-1])
+					fmt.Fprintln(os.Stderr, "APIERR", cl.apiErrs[len(cl.apiErrs)-1])
 				}
 			}
 			return handled, obj, err
@@ -483,7 +511,7 @@ func RunCycle(w *world.World, c Config, obs Observer) (res *Result, err error) {
 		}
 		return true, cur, nil
 	})
-	sc, params := buildConf(c)
+	_, params := buildConf(c)
 	real := cache.New(&cache.SchedulerCacheParams{
 		KubeClient:                  kube,
 		KAISchedulerClient:          kai,
@@ -494,10 +522,10 @@ func RunCycle(w *world.World, c Config, obs Observer) (res *Result, err error) {
 		NumOfStatusRecordingWorkers: params.NumOfStatusRecordingWorkers,
 		DiscoveryClient:             kube.Discovery(),
 	})
-	stopCh := make(chan struct{})
-	defer close(stopCh)
+	stopCh := cl.stopCh
 	real.Run(stopCh)
 	wt := real.(waiter)
+	cl.real, cl.wt = real, wt
 	for i := 0; !wt.VerifInformersSynced(); i++ {
 		runtime.Gosched()
 		if i > 1000 {
@@ -521,6 +549,20 @@ func RunCycle(w *world.World, c Config, obs Observer) (res *Result, err error) {
 			}
 		}
 	}
+	return cl, nil
+}
+
+// Cycle runs one real scheduling cycle (session conf and API faults from c) on the cluster.
+func (cl *Cluster) Cycle(c Config, obs Observer) (res *Result, err error) {
+	currentObserver = obs
+	maporder.Set(c.MapSeed)
+	start := time.Now()
+	w, kube, kai, real, wt, stopCh := cl.w, cl.kube, cl.kai, cl.real, cl.wt, cl.stopCh
+	cl.faults = c.Faults
+	cl.apiErrMu.Lock()
+	cl.apiErrs = nil
+	cl.apiErrMu.Unlock()
+	sc, params := buildConf(c)
 
 	rec := &recorder{Cache: real, faults: c.Faults}
 	res = &Result{}
@@ -585,18 +627,21 @@ func RunCycle(w *world.World, c Config, obs Observer) (res *Result, err error) {
 			time.Sleep(50 * time.Microsecond)
 		}
 		if time.Since(idleStart) > 10*time.Minute {
-			return nil, fmt.Errorf("harness: status updater did not become idle; api errors: %v", apiErrs)
+			return nil, fmt.Errorf("harness: status updater did not become idle; api errors: %v", cl.apiErrs)
 		}
-		apiErrMu.Lock()
-		nerr := len(apiErrs)
-		apiErrMu.Unlock()
+		cl.apiErrMu.Lock()
+		nerr := len(cl.apiErrs)
+		cl.apiErrMu.Unlock()
 		if nerr >= 20 {
-			return nil, fmt.Errorf("harness: status updater is retrying a failing write forever; api errors: %v", apiErrs[:3])
+			return nil, fmt.Errorf("harness: status updater is retrying a failing write forever; api errors: %v", cl.apiErrs[:3])
 		}
 	}
 	res.Decisions = rec.decisions
-	res.APIErrors = apiErrs
+	res.APIErrors = cl.apiErrs
 	res.After, err = ReadBack(w, kube, kai)
+	if err == nil {
+		cl.w = res.After
+	}
 	res.Duration = time.Since(start)
 	return res, err
 }
